@@ -65,6 +65,7 @@ def run (st : St) (args : List String) : St × String :=
            | _ => "ignored")
         else evStr ev
       ({ st with srv := s1, probes := probes }, s!"{shown} n={probes}")
+  | "au.late" :: _ => (st, "ok")       -- Props/C06: other_connections_untouched, only_credentials_matter — however long the authenticator takes
   | "au.burst" :: _ => (st, "ok")      -- Props/C06.gate: no probe invocation without accepted credentials
   | _ => (st, "bad-op")
 
